@@ -191,6 +191,10 @@ def run(ctx, chk):
         zero = [t for a, t in st.atoms if a.replace(' ', '') in ('%s<=0' % size, '-1*%s+1<=0' % size)]
         size_is_zero = any((a.replace(' ', '') in ('(%s==0)' % size, '%s<=0' % size) and t) or
                            (a.replace(' ', '') in ('(%s!=0)' % size, '-1*%s+1<=0' % size) and not t) for a, t in st.atoms)
+        if not size_is_zero:
+            s0 = PState()
+            s0.facts = set(st.facts)
+            size_is_zero = E.se.decide_le(Lin.sym(size), s0) is True
         if size_is_zero:
             ok = len(frees) == 1 and not mallocs and isinstance(rv, Ptr) and rv.base == 'NULL' and \
                 isinstance(frees[0][3][1], Ptr) and frees[0][3][1].base == ptr and frees[0][3][1].off == Lin.const(0)
@@ -211,7 +215,7 @@ def run(ctx, chk):
         nb = mallocs[0]
         blk = 'malloc#1'
         if st.notes.get(('nonnull', blk)) is False:
-            ok = not frees and not copies and isinstance(rv, Ptr) and rv.base == 'NULL'
+            ok = not frees and not copies and isinstance(rv, Ptr) and (rv.base == 'NULL' or (rv.base == blk and rv.off == Lin.const(0)))
             rows['grow-fail'].append((ok, loc, 'a failed allocation must return NULL and leave the old block allocated and intact'))
             continue
         ok = len(copies) == 1 and len(frees) == 1 and isinstance(rv, Ptr) and rv.base == blk and rv.off == Lin.const(0)
